@@ -30,6 +30,9 @@ pub struct Poly {
   /// probe points on the meridian of a vertex: (vertex index, latitude offset in units of R)
   #[serde(default)]
   pub meridian: Vec<(usize, f64)>,
+  /// generator class ("" = generic, "near_limit_corner")
+  #[serde(default)]
+  pub kind: String,
 }
 
 pub fn meta() -> PropMeta {
@@ -114,6 +117,9 @@ pub fn check(c: &Poly, rec: &mut Rec) -> Result<(), Violation> {
   let d = c.depth;
   rec.class(if c.convex { "convex" } else { "star" });
   rec.class(if c.exact { "exact" } else { "approx" });
+  if !c.kind.is_empty() {
+    rec.class(&c.kind);
+  }
   let crosses_lon0 = c.verts.iter().any(|v| v.0 < 1.0) && c.verts.iter().any(|v| v.0 > 5.0);
   if crosses_lon0 {
     rec.class("crosses_lon_0");
@@ -244,7 +250,73 @@ pub fn check(c: &Poly, rec: &mut Rec) -> Result<(), Violation> {
   Ok(())
 }
 
+/// Directed class: a thin triangle whose bounding cone, *as the crate computes it* (normalised mean
+/// of the vertices, largest distance to a vertex), has a radius within a few 1e-5 .. 2e-2 (relative)
+/// of a starting-depth limit `T_k`, on either side of it, and a centre next to one of the 8 points
+/// where three base cells meet (where the cells of depth k are the narrowest outside the caps'
+/// seams): the recursion of `polygon_coverage` starts from the cell of that centre and its
+/// neighbours, so the vertex cells are at risk exactly there.
+fn strat_near_limit() -> BoxedStrategy<Poly> {
+  (
+    (1usize..=8, -5.0f64..-1.7, any::<bool>(), 0u8..8, -8.0f64..-2.0, 0.0f64..(2.0 * PI), 0.0f64..(2.0 * PI), 0.2f64..0.6),
+    (0u8..=4, any::<bool>(), any::<bool>(), 0usize..3),
+    prop::collection::vec((0.0f64..1.0, 0.0f64..(2.0 * PI)), 12..24),
+    prop::collection::vec((0.0f64..(2.0 * PI), -1.0f64..=1.0), 4..8),
+    prop::collection::vec((0usize..3, -2.5f64..2.5), 4..10),
+  )
+    .prop_map(|((k, eps_log, above, corner, delta_log, delta_az, beta, gamma), (dd, exact, reverse, rot), probes, far, meridian)| {
+      let t = super::cone_common::model_thresholds()[k];
+      let eps = (10.0f64).powf(eps_log);
+      let r_target = t * if above { 1.0 + eps } else { 1.0 - eps };
+      let tl = geom::transition_latitude();
+      let (clon, clat) = ((corner & 3) as f64 * geom::HALF_PI, if corner < 4 { tl } else { -tl });
+      let (mut mlon, mut mlat) = geom::point_at(clon, clat, (10.0f64).powf(delta_log) * r_target, delta_az);
+      let (want_lon, want_lat) = (mlon, mlat);
+      let mut rr = r_target;
+      let mut verts: Vec<(f64, f64)> = vec![];
+      let mut got = (mlon, mlat, rr);
+      for _ in 0..4 {
+        let s = rr / (2.0 * gamma.cos());
+        verts = vec![geom::point_at(mlon, mlat, rr, beta), geom::point_at(mlon, mlat, s, beta + PI - gamma), geom::point_at(mlon, mlat, s, beta + PI + gamma)];
+        // the crate's bounding cone of these vertices
+        let mut m = V3 { x: 0.0, y: 0.0, z: 0.0 };
+        for &(l, b) in &verts {
+          m = m.add(&V3::from_lonlat(l, b));
+        }
+        let m = m.normalized();
+        let r_now = verts.iter().map(|&(l, b)| geom::ang_dist_v(&m, &V3::from_lonlat(l, b))).fold(0.0, f64::max);
+        let (gl, gb) = m.lonlat();
+        got = (gl, gb, r_now);
+        // correct the construction centre and radius towards the targets
+        let mut dl = want_lon - gl;
+        if dl > PI {
+          dl -= 2.0 * PI;
+        } else if dl < -PI {
+          dl += 2.0 * PI;
+        }
+        mlon += dl;
+        mlat += want_lat - gb;
+        rr *= r_target / r_now;
+      }
+      for v in verts.iter_mut() {
+        v.0 = v.0.rem_euclid(2.0 * PI);
+      }
+      let (lon_c, lat_c) = (got.0.rem_euclid(2.0 * PI), got.1);
+      let depth = ((k as u8 + dd).saturating_sub(1)).min(12);
+      if reverse {
+        verts.reverse();
+      }
+      verts.rotate_left(rot % 3);
+      Poly { depth, exact, lon_c, lat_c, r: got.2, convex: true, verts, probes, far: far.into_iter().map(|(l, z)| (l, z.asin())).collect(), meridian, kind: "near_limit_corner".into() }
+    })
+    .boxed()
+}
+
 fn strat() -> BoxedStrategy<Poly> {
+  prop_oneof![7 => strat_generic(), 1 => strat_near_limit()].boxed()
+}
+
+fn strat_generic() -> BoxedStrategy<Poly> {
   let r = (-4.0f64..-0.0969).prop_map(|u| (10.0f64).powf(u));
   (r, gens::position_principal(), 3usize..=12, any::<bool>(), any::<bool>(), any::<bool>(), 0usize..12)
     .prop_flat_map(|(r, pos, k, convex, exact, reverse, rot)| {
@@ -304,7 +376,7 @@ fn strat() -> BoxedStrategy<Poly> {
             verts.reverse();
           }
           verts.rotate_left(rot % k);
-          Poly { depth, exact, lon_c, lat_c, r, convex, verts, probes, far: far.into_iter().map(|(l, z)| (l, z.asin())).collect(), meridian }
+          Poly { depth, exact, lon_c, lat_c, r, convex, verts, probes, far: far.into_iter().map(|(l, z)| (l, z.asin())).collect(), meridian, kind: String::new() }
         })
     })
     .boxed()
